@@ -28,6 +28,7 @@ LEVEL_TEXT = (
     "must compute equal results. The name table is enumerated completely; models are sampled."
     ' Both files are also written with the opening parenthesis on a later line for some commands, and the line of every command is compared between the two programs.'
 )
+LEVEL_TEXT += ' Added later: several commands, or the whole file, on one line; output-file / new-field arguments given twice.'
 LEVEL_NOTE = (
     "No EEMS 2.0 manual is available offline: the table in this module was written from the operation each name denotes and "
     "the MPilot docs. SCORERANGEBENEFIT/SCORERANGECOST have no MPilot counterpart: recorded finding."
